@@ -18,6 +18,9 @@ from pfv import smt, fc
 from pfv import cutloops
 from pfv.framework import Obligation, Verdict, real_exec
 from pfv.proxies import explore, SReal, SInt, Unsupported, PathAbort, ctx
+import functools as _ft
+_explore_raw = explore
+explore = _ft.partial(_explore_raw, enforce_bounds=True)     # shim range assumptions (slices / indices) must be provable on every returning path
 
 PROP = 'C19'
 FUNCTIONS = ['pfhedge._utils.bisect.bisect', 'pfhedge._utils.bisect.find_implied_volatility',
